@@ -114,6 +114,7 @@ def run(ctx):
     recs = sc.run_games(ctx, games, limit=10, tag="c04")
     sc.correspondence(ctx, recs, "cmp_reachs", "c04")
     sc.padding_check(ctx, recs, ("reach",), 40 if ctx.quick else 400, "c04")
+    sc.loglevel_check(ctx, recs, ("reach",), 25 if ctx.quick else 250, "c04")
     check(ctx, recs)
     known_k1(ctx)
 
